@@ -15,7 +15,7 @@ for pid in sys.argv[1:]:
     # rounds already changed (from the seeded meta.json files), so new root causes come back
     import glob
     prior = []
-    for m in sorted(glob.glob("/verif/seeded/%s-m*/meta.json" % pid)):
+    for m in sorted(glob.glob("/verif/seeded/%s-*/meta.json" % pid)):
         try:
             d = json.load(open(m))
             prior.append("  - %s: %s" % (", ".join(d.get("files", []))[:120], str(d.get("summary", ""))[:220].replace("\n", " ")))
